@@ -26,20 +26,22 @@ open Drand
 
 /-! ### ties to the regenerated facts -/
 
-/-- the shape of `callbackStore.Put` / `AddCallback` / `RemoveCallback` the model relies on (which of the two dispatch
-variants the code has is NOT pinned here: `Gen.callbackPutDispatchBlocking` selects the variant of the driver) -/
+/-- the shape of `callbackStore.Put` / `AddCallback` / `RemoveCallback` the model relies on (which of the two
+variants the code has is NOT pinned here: the regenerated facts select the machine — `step` for the code as it was,
+`stepR` for the repaired store — see `tie_callback_variant` in DrandProofs/C12R.lean) -/
 theorem tie_callback_put_shape :
-    Gen.callbackPutBaseFirst = true ∧ Gen.callbackPutHoldsReadLock = true ∧ Gen.callbackAddLocked = true ∧
-    Gen.callbackRemoveLocked = true ∧ Gen.callbackChanCap = "CallbackWorkerQueue" := by decide
+    Gen.callbackPutBaseFirst = true ∧ (Gen.callbackPutHoldsReadLock = true ∨ Gen.callbackPutHoldsWriteLock = true) ∧
+    Gen.callbackAddLocked = true ∧ Gen.callbackRemoveLocked = true ∧ Gen.callbackChanCap = "CallbackWorkerQueue" := by decide
 
 /-- the configuration of the code as it is -/
-def asIsCfg : Cfg := ⟨Gen.callbackWorkerQueue, Gen.callbackPutDispatchBlocking, Gen.callbackAddCloseSendBlocking⟩
+def asIsCfg : Cfg :=
+  { cap := Gen.callbackWorkerQueue, blocking := Gen.callbackPutDispatchBlocking, closeBlocking := Gen.callbackAddCloseSendBlocking }
 
 theorem tie_callback_queue_const : asIsCfg.cap = Gen.callbackWorkerQueue ∧ 0 < Gen.callbackWorkerQueue := by decide
 
 /-! ### small facts about the association list of channels -/
 
-private theorem mem_setChan {s : St} {id : String} {c : Chan} {e : String × Chan}
+theorem mem_setChan {s : St} {id : String} {c : Chan} {e : String × Chan}
     (h : e ∈ (setChan s id c).chans) : e ∈ s.chans ∨ e = (id, c) := by
   simp only [setChan, List.mem_map] at h
   obtain ⟨x, hx, rfl⟩ := h
@@ -47,7 +49,7 @@ private theorem mem_setChan {s : St} {id : String} {c : Chan} {e : String × Cha
   · simp [hb]
   · simp [hb, hx]
 
-private theorem mem_setOrphan {s : St} {id : String} {c : Chan} {e : String × Chan}
+theorem mem_setOrphan {s : St} {id : String} {c : Chan} {e : String × Chan}
     (h : e ∈ (setOrphan s id c).orphans) : e ∈ s.orphans ∨ e = (id, c) := by
   simp only [setOrphan, List.mem_map] at h
   obtain ⟨x, hx, rfl⟩ := h
@@ -55,12 +57,12 @@ private theorem mem_setOrphan {s : St} {id : String} {c : Chan} {e : String × C
   · simp [hb]
   · simp [hb, hx]
 
-private theorem chanOf_mem {s : St} {id : String} {c : Chan} (h : chanOf s id = some c) : ∃ i, (i, c) ∈ s.chans := by
+theorem chanOf_mem {s : St} {id : String} {c : Chan} (h : chanOf s id = some c) : ∃ i, (i, c) ∈ s.chans := by
   simp only [chanOf, Option.map_eq_some_iff] at h
   obtain ⟨e, he, rfl⟩ := h
   exact ⟨e.1, List.mem_of_find?_eq_some he⟩
 
-private theorem orphanOf_mem {s : St} {id : String} {c : Chan} (h : orphanOf s id = some c) : ∃ i, (i, c) ∈ s.orphans := by
+theorem orphanOf_mem {s : St} {id : String} {c : Chan} (h : orphanOf s id = some c) : ∃ i, (i, c) ∈ s.orphans := by
   simp only [orphanOf, Option.map_eq_some_iff] at h
   obtain ⟨e, he, rfl⟩ := h
   exact ⟨e.1, List.mem_of_find?_eq_some he⟩
@@ -253,7 +255,7 @@ private theorem putSend_puts {cfg : Cfg} {s s' : St} {i : Nat} {p : InPut} {id :
       · cases hs
       · cases hs; rfl
 
-private theorem eraseIdx_set {α : Type} (l : List α) (i : Nat) (a : α) : (l.set i a).eraseIdx i = l.eraseIdx i := by
+theorem eraseIdx_set {α : Type} (l : List α) (i : Nat) (a : α) : (l.set i a).eraseIdx i = l.eraseIdx i := by
   induction l generalizing i with
   | nil => simp
   | cons x t ih =>
@@ -261,7 +263,7 @@ private theorem eraseIdx_set {α : Type} (l : List α) (i : Nat) (a : α) : (l.s
     | zero => simp
     | succ i => simp [ih]
 
-private theorem getElem?_set_self' {α : Type} (l : List α) (i : Nat) (a b : α) (h : l[i]? = some b) : (l.set i a)[i]? = some a := by
+theorem getElem?_set_self' {α : Type} (l : List α) (i : Nat) (a b : α) (h : l[i]? = some b) : (l.set i a)[i]? = some a := by
   have : i < l.length := by
     rcases Nat.lt_or_ge i l.length with h1 | h1
     · exact h1
@@ -316,7 +318,7 @@ theorem c12_put_completes_alone (cfg : Cfg) (hb : cfg.blocking = false) :
 
 /-! ### the code as it is: a Put completes only if the workers it has to reach make progress -/
 
-private theorem find_map_key (l : List (String × Chan)) (x id : String) (v : Chan) :
+theorem find_map_key (l : List (String × Chan)) (x id : String) (v : Chan) :
     ((l.map fun e => if e.1 == x then (x, v) else e).find? (·.1 == id)).map (·.2)
       = ((l.find? (·.1 == id)).map (·.2)).map (fun old => if x = id then v else old) := by
   induction l with
@@ -343,7 +345,7 @@ private theorem find_map_key (l : List (String × Chan)) (x id : String) (v : Ch
       · simp only [Bool.not_eq_true] at hi hx
         simp only [hx, Bool.false_eq_true, if_false, hi]
         exact ih
-private theorem chanOf_setChan (s : St) (x id : String) (v : Chan) :
+theorem chanOf_setChan (s : St) (x id : String) (v : Chan) :
     chanOf (setChan s x v) id = (chanOf s id).map (fun old => if x = id then v else old) := by
   simp only [chanOf, setChan]
   exact find_map_key s.chans x id v
@@ -453,7 +455,7 @@ theorem c12_put_nonblocking_partial (cfg : Cfg) (hcap : 0 < cfg.cap) (s : St) (h
 /-! ### … and without that hypothesis it does not: the stall -/
 
 /-- the dispatch as coded (plain send), whatever the source says today -/
-def stallCfg : Cfg := ⟨Gen.callbackWorkerQueue, true, true⟩
+def stallCfg : Cfg := { cap := Gen.callbackWorkerQueue, blocking := true, closeBlocking := true }
 
 def bcn (r : Nat) : Beacon := ⟨r, [], []⟩
 
@@ -608,7 +610,7 @@ theorem c12_addcallback_stall_counterexample :
 
 /-! ### FIFO -/
 
-private theorem find_filter_ne (l : List (String × Chan)) (x id : String) (hne : ¬ x = id) :
+theorem find_filter_ne (l : List (String × Chan)) (x id : String) (hne : ¬ x = id) :
     List.find? (fun e => e.1 == id) (l.filter (·.1 != x)) = List.find? (fun e => e.1 == id) l := by
   induction l with
   | nil => rfl
